@@ -45,6 +45,27 @@ func gen(t *rapid.T) Case {
 		}
 	}
 	c.Place = rapid.SampledFrom([]string{"across", "across", "inside", "throughhole", "outside_near", "outside_far", "xmonotone"}).Draw(t, "place")
+	if rapid.IntRange(0, 39).Draw(t, "blockexit") == 9 {
+		// a long x-monotone line that wanders over P for exactly K segments and leaves P's bounding box for good at
+		// vertex K, K next to a power of two (the sizes of blocks that code processes lines in)
+		c.Place = "exit_at_block"
+		m := rapid.SampledFrom([]int{4, 5, 6, 7, 8, 8, 9, 10, 10, 11, 12, 12, 13}).Draw(t, "blockexp")
+		K := 1<<uint(m) + rapid.IntRange(-1, 1).Draw(t, "blockoff")
+		tail := rapid.IntRange(1, 40).Draw(t, "blocktail")
+		x0, y0, x1, y1 := bb(c.P.Flatten())
+		w, h := x1-x0, y1-y0
+		var l []vkit.P2
+		for k := 0; k <= K; k++ { // vertices 0..K inside the bounding box, x strictly increasing
+			x := x0 + w*(0.02+0.96*float64(k)/float64(K))
+			l = append(l, vkit.MkP(x, y0+h*rapid.Float64Range(0.05, 0.95).Draw(t, "by")))
+		}
+		for k := 1; k <= tail; k++ { // beyond the right edge of the box, never to return
+			l = append(l, vkit.MkP(x1+w*(0.05+0.3*float64(k)), y0+h*rapid.Float64Range(-0.5, 1.5).Draw(t, "ty")))
+		}
+		c.Lines = [][]vkit.P2{l}
+		c.AsMulti = rapid.Bool().Draw(t, "blockmulti")
+		return c
+	}
 	nl := rapid.SampledFrom([]int{1, 1, 2, 3}).Draw(t, "nl")
 	c.AsMulti = nl > 1 || rapid.Bool().Draw(t, "asmulti")
 	{
@@ -96,6 +117,8 @@ func gen(t *rapid.T) Case {
 		}
 		// members of a multi-line string: consecutive pieces of one simple line with the connecting segments
 		// dropped, hence mutually non-crossing by construction
+		chained := nl > 1 && rapid.IntRange(0, 2).Draw(t, "chained") == 1 // members share their end vertices instead of leaving a gap
+		first, last := l[0], l[len(l)-1]
 		for m := nl; m >= 1; m-- {
 			if m == 1 || len(l) < 2*m {
 				c.Lines = append(c.Lines, l)
@@ -103,7 +126,15 @@ func gen(t *rapid.T) Case {
 			}
 			cut := rapid.IntRange(2, len(l)-2*(m-1)).Draw(t, "cut")
 			c.Lines = append(c.Lines, l[:cut])
-			l = l[cut:]
+			if chained {
+				l = l[cut-1:]
+			} else {
+				l = l[cut:]
+			}
+		}
+		if chained && len(c.Lines) >= 2 && rapid.Bool().Draw(t, "closeloop") {
+			// one more member from the end of the chain back to its start: the members together form a closed loop
+			c.Lines = append(c.Lines, []vkit.P2{last, first})
 		}
 		c.AsMulti = len(c.Lines) > 1 || c.AsMulti
 	}
@@ -128,6 +159,19 @@ func bb(l []vkit.P2) (x0, y0, x1, y1 float64) {
 // lineSimple: the multi-line is simple: no two segments (of the same or different members) come within margin of each
 // other except consecutive segments of one member at their shared vertex.
 func lineSimple(lines [][]vkit.P2, margin float64) bool {
+	// fast path: a single member whose x-coordinates increase by more than the margin at every step is simple
+	if len(lines) == 1 && len(lines[0]) >= 2 {
+		mono := true
+		for i := 0; i+1 < len(lines[0]); i++ {
+			if !(float64(lines[0][i+1][0])-float64(lines[0][i][0]) > margin) {
+				mono = false
+				break
+			}
+		}
+		if mono {
+			return true
+		}
+	}
 	type sg struct {
 		a, b    vkit.P2
 		li, idx int
@@ -152,6 +196,34 @@ func lineSimple(lines [][]vkit.P2, margin float64) bool {
 					return false
 				}
 				continue
+			}
+			if e.li != f.li {
+				// members may touch at their END points (a chain of members, or a loop closed by its members): two segments
+				// of different members that share an end vertex of both members exactly are judged like neighbours in one line
+				endE := func(p vkit.P2) bool { l := lines[e.li]; return p == l[0] || p == l[len(l)-1] }
+				endF := func(p vkit.P2) bool { l := lines[f.li]; return p == l[0] || p == l[len(l)-1] }
+				var shared *vkit.P2
+				for _, p := range []vkit.P2{e.a, e.b} {
+					for _, q := range []vkit.P2{f.a, f.b} {
+						if p == q && endE(p) && endF(q) {
+							pp := p
+							shared = &pp
+						}
+					}
+				}
+				if shared != nil {
+					other := func(a, b vkit.P2) vkit.P2 {
+						if a == *shared {
+							return b
+						}
+						return a
+					}
+					oe, of := other(e.a, e.b), other(f.a, f.b)
+					if oe == of || vkit.DistPtSeg(oe, f.a, f.b) <= margin || vkit.DistPtSeg(of, e.a, e.b) <= margin {
+						return false
+					}
+					continue
+				}
 			}
 			if vkit.SegSegDist(e.a, e.b, f.a, f.b) <= margin {
 				return false
@@ -341,8 +413,18 @@ func run(c Case) (v vkit.Verdict) {
 		}
 	}
 	tolv := 1e-9 * scale
+	nres := 0
 	for _, m := range rm {
-		for _, q := range m {
+		nres += len(m)
+	}
+	stride := 1 + nres/400 // long results: every stride-th vertex (and always the ends of each piece) is located on the line
+	seen := 0
+	for _, m := range rm {
+		for qi, q := range m {
+			seen++
+			if stride > 1 && seen%stride != 0 && qi != 0 && qi != len(m)-1 {
+				continue
+			}
 			p := vkit.MkP(q.X, q.Y)
 			dl := math.Inf(1)
 			for _, l := range c.Lines {
@@ -409,7 +491,7 @@ func nearVerticalEdge(c Case) bool {
 func TestProp(t *testing.T) {
 	vkit.Main(t, vkit.Spec[Case]{
 		ID: "C14",
-		Rule: "rapid: in 1 case of 3 line and polygon are handed to Clip multiplied exactly by 2^k (the result is divided by 2^k again; the oracle works at unit scale); simple open line strings (self-avoiding walks, hooks, spirals, zig-zags, x-monotone lines; 2-40 vertices, 1 in 30 with 260-700) and multi-line strings of 1-3 members, " +
+		Rule: "rapid: in 1 case of 3 line and polygon are handed to Clip multiplied exactly by 2^k (the result is divided by 2^k again; the oracle works at unit scale); simple open line strings (self-avoiding walks, hooks, spirals, zig-zags, x-monotone lines; 2-40 vertices, 1 in 30 with 260-700; 1 case in 40 is an x-monotone line of 2^m+-1 (m=4..13) segments over P that leaves P's bounding box for good at that vertex) and multi-line strings of 1-3 members (pieces of one simple line, with gaps between them or - a third of them - chained at shared end vertices, half of the chains closed into a loop by one more member), " +
 			"scaled/placed relative to a valid polygonal P (star polygon or (1 in 3) non-star comb/snake band, 0-3 holes (a quarter with the rings in a drawn order, e.g. a hole first), multi-polygon of 1-3 members, box): across, inside, through a hole, outside near, " +
 			"outside far. Cases where the multi-line is not simple (own O(n^2) test, margin 1e-7*scale) or a line vertex / polygon vertex is within that margin of the other " +
 			"geometry are skipped and counted. Oracle: every line segment is cut at its intersections with every polygon edge and the pieces whose midpoint is inside P " +
